@@ -649,6 +649,66 @@ IR_FROM_AST = {
 DEFAULT_NODES = {(0, 0, None, "s:Substitution"), (0, 0, None, "e:Phi")}      # Meta::default() of an inserted phi
 
 
+# Hypothesis 6 of C04_labels_wellformed_through_desugaring_and_ssa / hypothesis of
+# C04_labels_wellformed_through_desugaring_lifting_and_ssa: `nodes_of ctor` is a subset of `cfg_stmt_metas c'` - the
+# report constructor is handed STATEMENT metas of the SSA form (the IR mirror has no expression metas).  Which
+# (report code, label role) are claimed to be statement-anchored, from reading the passes:
+#   CS0005 / CS0013   signal_assignments.rs: the `<--` statement; secondaries = constraint statements
+#   CA01              under_constrained_signals.rs: the Declaration statement; secondary = a constraint statement
+#   CS0006 (signal), CS0017   unused / unconstrained signal: the Declaration statement (Declarations record = its meta);
+#                     the secondary of CS0017 is a statement as well
+#   CS0006 / CS0008 (variable)   side-effect analysis: the declaration / assignment statement of the variable
+# NOT claimed: CS0001 (shadowing) is built by unique_vars.rs BEFORE lifting from two Declaration metas of the syntax
+# tree; its primary is a statement of the cfg before SSA, but the report also exists when SSA conversion fails (no c'):
+# measured 748 of 774 primaries at an SSA statement.  CS0003/4/9/10/14/15/16/18 are expression-anchored,
+# CS0002/7/12 and CS0008 (parameter) parameter-list-anchored, T2008 definition-anchored.
+# The hypothesis is EVALUATED for every label of every in-process report of a project whose definitions all reached
+# SSA: a label of a claimed (code, role) that is not the (start, end, file id) of a statement of some SSA cfg of the
+# project is a broken hypothesis.  For all other codes the same membership is counted (the end-to-end theorems do not
+# apply to them: expression-, parameter-list- or definition-anchored constructors).
+STMT_ANCHORED = {("CS0005", "primary"), ("CS0005", "secondary"), ("CS0013", "primary"), ("CA01", "primary"),
+                 ("CA01", "secondary"), ("CS0017", "primary"), ("CS0017", "secondary"), ("CS0006/signal", "primary"),
+                 ("CS0006/variable", "primary"), ("CS0008/variable", "primary")}
+
+
+def anchor_class(report):
+    code = report["id"]
+    if code == "CS0006":
+        return "CS0006/signal" if report["message"].startswith("The signal") else "CS0006/variable"
+    if code == "CS0008":
+        return "CS0008/parameter" if report["message"].startswith("The parameter") else "CS0008/variable"
+    return code
+
+
+def judge_statement_anchors(p, out, prov, stats):
+    """-> failures (clause `statement-anchor`)"""
+    fails = []
+    defs = prov.get("defs") or []
+    if not defs:
+        return fails
+    stmts = set()
+    for d in defs:
+        for s, e, f, k in (d.get("ssa") or []):
+            if k.startswith("s:"):
+                stmts.add((s, e, f))
+    for r in out.get("reports") or []:
+        cls = anchor_class(r)
+        for role, labels in (("primary", r["primary"]), ("secondary", r["secondary"])):
+            for l in labels:
+                key = "%s %s" % (cls, role)
+                stats["anchor_eval:" + key] += 1
+                inside = (l["start"], l["end"], l["file"]) in stmts
+                if inside:
+                    stats["anchor_stmt:" + key] += 1
+                elif (cls, role) in STMT_ANCHORED:
+                    fails.append({"clause": "statement-anchor", "code": r["id"], "style": role,
+                                  "label": {k: l[k] for k in ("file", "start", "end", "msg")},
+                                  "why": "hypothesis `nodes_of ctor` subset of `cfg_stmt_metas c'` of the end-to-end label theorems: the %s "
+                                         "label %d..%d (file %s) of a %s report is not the location of a statement of an SSA cfg of "
+                                         "the project" % (role, l["start"], l["end"], l["file"], cls)})
+    return fails
+
+
 def judge_provenance(p, out, stats):
     """Hypotheses of C04_labels_wellformed_through_desugaring_and_ssa observed on the real code, node by node:
     (lifting) every node of the CFG built by into_cfg carries the (start, end, file id) of a node of the
@@ -1038,6 +1098,7 @@ def evaluate(projects, harness, cli, root, stats, nontrivial):
             fails.append({"clause": "harness", "why": "provenance mode: %s" % str(prov)[:200]})
         else:
             fails += judge_provenance(p, prov, stats)
+            fails += judge_statement_anchors(p, out, prov, stats)
         stats["cli_findings_displayed"] += len([ev for ev in e2e.parse_stdout(c["stdout"]) if ev[0] == "diag"])
         if c["sarif"] and "results" in c["sarif"]:
             stats["sarif_results"] += len(c["sarif"]["results"])
@@ -1145,6 +1206,12 @@ def run(ctx, proofs):
                        "spec": "every label: file of the library read from disk, 0 <= start <= end <= len, UTF-8 and token "
                                "boundaries of the ORIGINAL text, construct of the message under the primary label, "
                                "line:column / SARIF region recomputed from the original bytes"})
+    claimed_evals = {("%s %s" % k): stats["anchor_eval:%s %s" % k] for k in STMT_ANCHORED}
+    if sum(claimed_evals.values()) < 50 or not claimed_evals["CS0005 primary"] or not claimed_evals["CA01 primary"]:
+        ctx.violation("the statement-anchor hypothesis of the end-to-end label theorems was evaluated on too few labels to mean "
+                      "anything (%s)" % claimed_evals,
+                      {"broken": "lib/props/C04.py judge_statement_anchors (degenerate run)", "evaluations": claimed_evals},
+                      no_input=True)
     if not failing and proofs["failures"]:
         ctx.violation("proof obligations of C04 no longer check: " + "; ".join(proofs["failures"])[:600],
                       {"broken": "props/C04.v (or the regenerated coq/gen/LabelSites.v: a label constructor of the "
@@ -1194,6 +1261,14 @@ def run(ctx, proofs):
             "note": "per definition, in process: every (start, end, file id, kind) of the CFG built by into_cfg is that of an AST "
                     "node of the corresponding kind of the body handed on by parse_files (statements AND expressions); every node "
                     "after into_ssa is a node of that CFG or an inserted phi with Meta::default(); no node loses its location"},
+        "statement_anchor_hypothesis": {
+            "claimed_statement_anchored": sorted("%s %s" % k for k in STMT_ANCHORED),
+            "labels_evaluated": {k[12:]: v for k, v in sorted(stats.items()) if k.startswith("anchor_eval:")},
+            "labels_at_a_statement_of_the_ssa_cfg": {k[12:]: v for k, v in sorted(stats.items()) if k.startswith("anchor_stmt:")},
+            "note": "hypothesis `nodes_of ctor` subset of `cfg_stmt_metas c'` of C04_labels_wellformed_through_desugaring_and_ssa / "
+                    "_lifting_and_ssa, evaluated on every label of every in-process report against the statement nodes of the SSA "
+                    "cfgs the real into_cfg + into_ssa build for the project; a label of a claimed (code, role) outside that set "
+                    "is a violation (clause statement-anchor); the other codes are outside the scope of the end-to-end theorems"},
         "codespan_model_vs_real": {
             "cases": stats["codespan_cases"], "distinct_texts": stats["codespan_texts"],
             "exhaustive_small_texts": stats["codespan_exhaustive_small_texts"],
